@@ -116,6 +116,8 @@ def check_valid_content(dump, where, v):
 
 
 def oracle(case, out):
+    if isinstance(out, dict) and "panic" in out:
+        return [("panic", "the implementation panicked on this case: %s" % str(out["panic"])[:300])]
     if not isinstance(out, dict) or "results" not in out:
         return [("harness", "no result: %r" % (out,))]
     v = []
